@@ -102,6 +102,17 @@ class G:
         return [self.rs.uniform(0.1, 1., size=k) for k in n]
 
 
+_BIG_N = (128, 256, 2 ** 15, 2 ** 16, 2 ** 31, 2 ** 32)
+
+
+def _big_rows(g, nn, m):
+    """multi-indices that reach the last index of every mode (and the middle one)"""
+    rows = [[k - 1 for k in nn], [k // 2 for k in nn], [0 for _ in nn]]
+    rows += [[g.r.randrange(k) for k in nn] for _ in range(m)]
+    g.r.shuffle(rows)
+    return rows
+
+
 def E(name, file, props, gen, kinds, **kw):
     TABLE[name] = Entry(name, 'teneva/' + file, props, gen, kinds, **kw)
 
@@ -126,14 +137,16 @@ E('copy', 'act_one.py', ['C01', 'C09'],
   novar={('Y', 'R1')})
 E('get', 'act_one.py', ['C01', 'C20'],
   lambda g: dict(Y=g.tt(), i=g.mi(), _to_item=g.pick(True, True, False)),
-  dict(Y='tt', i='index', _to_item='flag'), homog=H({'Y': 1}))
+  dict(Y='tt', i='index', _to_item='flag'), homog=H({'Y': 1}),
+  big=lambda g: (lambda n0: dict(Y=g.tt([n0, 3], 2), i=[n0 - g.pick(1, 2), g.int(0, 2)]))(g.pick(128, 256)))
 E('get_and_grad', 'act_one.py', ['C01'],
   lambda g: dict(Y=g.tt(), i=g.mi()),
   # check_phi (service flag, "should be False") references an undefined name when truthy: left at its default
   dict(Y='tt', i='index', check_phi='other'), homog=H({'Y': 1}, (1, 'skip')))
 E('get_many', 'act_one.py', ['C01'],
   lambda g: dict(Y=g.tt(), I=g.batch(), _to_item=g.pick(True, True, False)),
-  dict(Y='tt', I='index', _to_item='flag'), homog=H({'Y': 1}))
+  dict(Y='tt', I='index', _to_item='flag'), homog=H({'Y': 1}),
+  big=lambda g: (lambda n0: dict(Y=g.tt([n0, 3], 2), I=_big_rows(g, [n0, 3], 2)))(g.pick(128, 256)))
 E('getter', 'act_one.py', ['C01'],
   lambda g: dict(Y=g.tt()), dict(Y='tt', compile='flag'),
   post=lambda tn, f, a: [f(np.array(i)) for i in itertools.product(*[range(G_.shape[1]) for G_ in a['Y']])][:20],
@@ -153,7 +166,7 @@ E('interface', 'act_one.py', ['C01'], _gen_interface,
   # i as a tuple is outside the documented types (list, np.ndarray): `i[::-1]` works but P / i handling indexes lists
   dict(Y='tt', P='tt', i='index', norm='other', ltr='flag'),
   homog=H(lambda a: {'Y': 1} if a['norm'] in ('linalg', 'l') else {}, 0),
-  novar={('P', 'R5')})
+  novar={('P', 'R5')}, syn={'norm': {'linalg': 'l', 'l': 'linalg', 'natural': 'n', 'n': 'natural'}})
 E('mean', 'act_one.py', ['C01', 'C11'],
   lambda g: dict(Y=g.tt(), **({'P': g.weights()} if g.flag() else {}), norm=g.flag()),
   dict(Y='tt', P='tt', norm='flag'), homog=H({'Y': 1}), novar={('P', 'R5')})
@@ -167,7 +180,9 @@ E('sum', 'act_one.py', ['C01', 'C11'], lambda g: dict(Y=g.tt()), dict(Y='tt'), h
 E('tt_to_qtt', 'act_one.py', ['C17'],
   lambda g: dict(Y=g.tt([g.pick(2, 4, 8) for _ in range(g.int(2, 3))]), e=g.pick(1e-12, 0.), r=g.pick(100, 4)),
   # e is an absolute threshold applied core by core: the scale relation is stated for e = 0 only
-  dict(Y='tt', e='float', r='int'), homog=H(lambda a: {'Y': 1} if a['e'] == 0 else {}))
+  dict(Y='tt', e='float', r='int:f'), homog=H(lambda a: {'Y': 1} if a['e'] == 0 else {}),
+  # default cap r = 100 binds: a generic (1, 2^14, 1) core has natural QTT ranks up to 128
+  dflt=lambda g: dict(Y=[g.arr(1, 2 ** 14, 1)]))
 
 # ================================================================================================================
 # act_two / act_many
@@ -216,7 +231,7 @@ E('outer', 'act_two.py', ['C01', 'C09'],
 E('add_many', 'act_many.py', ['C02', 'C01', 'C13'],
   lambda g: dict(Y_many=[g.tt(rmax=2) for _ in range(g.int(1, 4))] + ([g.nz()] if g.flag() else []),
                  e=g.pick(1e-10, 1e-8), r=g.pick(1e12, 3, 100), trunc_freq=g.pick(15, 1, 2)),
-  dict(Y_many='tt', e='float', r='int', trunc_freq='int'), homog=H({'Y_many': 1}, 1))
+  dict(Y_many='tt', e='float', r='int:f', trunc_freq='int'), homog=H({'Y_many': 1}, 1))
 E('outer_many', 'act_many.py', ['C01'],
   lambda g: dict(Y_many=[g.tt(g.shape(g.int(1, 2))) for _ in range(g.int(1, 3))]),
   dict(Y_many='tt'), homog=None)
@@ -241,43 +256,52 @@ E('orthogonalize_right', 'transformation.py', ['C04', 'C09', 'C11'],
 E('truncate', 'transformation.py', ['C02', 'C09', 'C11', 'C16'],
   lambda g: dict(Y=g.tt(), e=g.pick(1e-10, 1e-3, 1e-12), r=g.pick(1e12, 2, 100, 1), orth=g.pick(True, True, False),
                  use_stab=g.flag(), is_eigh=g.flag()),
-  dict(Y='tt', e='float', r='int', orth='flag', use_stab='flag', is_eigh='flag'),
+  dict(Y='tt', e='float', r='int:f', orth='flag', use_stab='flag', is_eigh='flag'),
   # e is relative to the norm only when orth is set (otherwise it is an absolute threshold per core: no scale relation)
-  homog=H(lambda a: {'Y': 1} if a['orth'] else {}, far=_STAB))
+  homog=H(lambda a: {'Y': 1} if a['orth'] else {}, far=_STAB),
+  # default e = 1e-10 (relative): a rank-one part at relative size 1e-9 is kept, a looser default would drop it
+  dflt=lambda g: (lambda n: dict(Y=g.tn.add(g.tt(n, 1), g.tn.mul(1e-9, g.tt(n, 1)))))(g.shape(3, 3, 4)))
 
 # ================================================================================================================
 # svd
 # ================================================================================================================
-E('matrix_skeleton', 'svd.py', ['C03', 'C02', 'C11'],
-  lambda g: dict(A=g.arr(g.int(2, 6), g.int(2, 6)), e=g.pick(1e-10, 1e-3), r=g.pick(1e12, 2, 3, 100), rel=g.flag(),
-                 give_to=g.pick('m', 'l', 'r')),
-  dict(A='array', e='float', r='int', hermitian='flag', rel='flag', give_to='other'),
+E('matrix_skeleton', 'svd.py', ['C03', 'C02', 'C11', 'C20'],
+  # e up to 0.7 on data of scale 1 .. 4: the truncation is active and depends on whether e is relative
+  lambda g: (lambda rel: dict(A=g.arr(g.int(3, 6), g.int(3, 6)) * (8. if rel else g.pick(1., 4.)),
+                              e=g.pick(0.3, 0.5, 1e-3) if rel else g.pick(1e-10, 1e-3, 0.3), r=g.pick(1e12, 2, 3, 100), rel=rel,
+                              give_to=g.pick('m', 'l', 'r')))(g.flag()),
+  dict(A='array', e='float', r='int:f', hermitian='flag', rel='flag', give_to='other'),
   # e is absolute unless rel: scaled alike; the factors share the scale according to give_to
   homog=H(lambda a: {'A': 1} if a['rel'] else {'A': 1, 'e': 1},
-          lambda a: {'m': (0.5, 0.5), 'l': (1, 0), 'r': (0, 1)}[a['give_to']]))
+          lambda a: {'m': (0.5, 0.5), 'l': (1, 0), 'r': (0, 1)}[a['give_to']]),
+  dflt=lambda g: dict(A=g.arr(g.int(3, 6), g.int(3, 6)) * 1e-9))
 E('matrix_svd', 'svd.py', ['C03', 'C02', 'C11'],
   lambda g: dict(A=g.arr(g.int(2, 6), g.int(2, 6)), e=g.pick(1e-10, 1e-3), r=g.pick(1e12, 2, 3, 100)),
-  dict(A='array', e='float', r='int'), homog=H({'A': 1, 'e': 1}, lambda a: (1, 0)))
+  dict(A='array', e='float', r='int:f'), homog=H({'A': 1, 'e': 1}, lambda a: (1, 0)),
+  dflt=lambda g: dict(A=g.arr(g.int(3, 6), g.int(3, 6)) * 1e-9))      # default e = 1e-10 is absolute: data at 1e-9
 E('svd', 'svd.py', ['C03', 'C11'],
-  lambda g: dict(Y_full=g.arr(*g.n), e=g.pick(1e-10, 1e-2), r=g.pick(1e12, 2, 3, 100)),
-  dict(Y_full='array', e='float', r='int'), homog=H({'Y_full': 1, 'e': 1}))
+  lambda g: dict(Y_full=g.arr(*g.pick(g.n, g.n, [g.int(2, 5)])), e=g.pick(1e-10, 1e-2), r=g.pick(1e12, 2, 3, 100)),
+  dict(Y_full='array', e='float', r='int:f'), homog=H({'Y_full': 1, 'e': 1}),
+  dflt=lambda g: dict(Y_full=g.arr(*g.n) * 1e-9))
 E('svd_matrix', 'svd.py', ['C03'],
   lambda g: (lambda q: dict(Y_full=g.arr(2 ** q, 2 ** q), e=g.pick(1e-10, 1e-2), r=g.pick(1e12, 3, 100)))(g.int(1, 3)),
-  dict(Y_full='array', e='float', r='int'), homog=H({'Y_full': 1, 'e': 1}))
+  dict(Y_full='array', e='float', r='int:f'), homog=H({'Y_full': 1, 'e': 1}))
 
 
-def _gen_svd_incomplete(g):
+def _gen_svd_incomplete(g, dflt=False):
     n = g.shape(g.int(3, 4), 3, 5)
     rho = g.int(1, 2)
     Y = g.tt(n, rho)
     I, idx, idx_many = g.tn.sample_tt(n, r=rho + 1, seed=g.int(1, 1000))
     y = g.tn.get_many(Y, I)
+    if dflt:       # default e = 1e-10 is absolute: values at 2e-9, e and r omitted
+        return dict(I=I, Y=y * 2e-9, idx=idx, idx_many=idx_many)
     return dict(I=I, Y=y, idx=idx, idx_many=idx_many, e=1e-10, r=g.pick(1e12, rho + 1, 100))
 
 
 E('svd_incomplete', 'svd.py', ['C20', 'C11'], _gen_svd_incomplete,
-  dict(I='array', Y='array', idx='array', idx_many='array', e='float', r='int'),   # documented as np.ndarray only
-  homog=H({'Y': 1, 'e': 1}))
+  dict(I='array', Y='array', idx='array', idx_many='array', e='float', r='int:f'),   # documented as np.ndarray only
+  homog=H({'Y': 1, 'e': 1}), dflt=lambda g: _gen_svd_incomplete(g, True))
 
 # ================================================================================================================
 # core
@@ -304,10 +328,11 @@ E('core_stab', 'core.py', ['C16', 'C04', 'C09'],
   dict(G='array', p0='int', thr='float'),
   homog=H({'G': 1}, ('stab', 1), far=True),
   # documented pass-through: max|G| <= thr hands the argument back unchanged (C09 statement)
-  alias=lambda a: {'G'} if float(np.max(np.abs(a['G']))) <= a.get('thr', 0.) else set())
+  alias=lambda a: {'G'} if float(np.max(np.abs(a['G']))) <= a.get('thr', 0.) else set(),
+  dflt=lambda g: dict(G=g.arr(2, 3, 2) * 2. ** g.int(-80, -40)))      # default thr = 0: tiny cores are rescaled too
 E('core_tt_to_qtt', 'core.py', ['C17', 'C11'],
   lambda g: dict(G=g.arr(g.int(1, 3), g.pick(2, 4, 8), g.int(1, 3)), e=g.pick(0., 1e-12), r=g.pick(1e12, 2, 100)),
-  dict(G='array', e='float', r='int'), homog=H({'G': 1, 'e': 1}, ('chain', 1)))
+  dict(G='array', e='float', r='int:f'), homog=H({'G': 1, 'e': 1}, ('chain', 1)))
 
 # ================================================================================================================
 # props / vis
@@ -322,7 +347,7 @@ E('show', 'vis.py', ['C11'], lambda g: dict(Y=g.tt()), dict(Y='tt'), homog=None)
 # grid
 # ================================================================================================================
 E('grid_flat', 'grid.py', ['C18'],
-  lambda g: dict(n=g.shape(g.int(1, 3), 1, 3)), dict(n='shape:f'))
+  lambda g: dict(n=g.shape(g.int(1, 3), 1, 3)), dict(n='shape:f'), big=lambda g: dict(n=[g.pick(127, 255), 2]))
 E('grid_prep_opt', 'grid.py', ['C18', 'C09'],
   lambda g: (lambda d: dict(opt=g.pick([g.num() for _ in range(d)], g.num(), float(g.int(1, 5))), d=d,
                             kind=g.pick(float, int), reps=g.pick(None, 2)))(g.int(1, 4)),
@@ -334,20 +359,21 @@ E('grid_prep_opts', 'grid.py', ['C18', 'C09'],
   dict(a='other', b='other', n='other', d='int', reps='int'), alias={'a', 'b', 'n'})
 E('ind_qtt_to_tt', 'grid.py', ['C17', 'C15'],
   lambda g: (lambda q, d: dict(I_qtt=g.pick(g.mi([2] * (q * d)), g.batch([2] * (q * d))), q=q))(g.int(1, 3), g.int(1, 3)),
-  dict(I_qtt='index', q='int'))
+  dict(I_qtt='index', q='int'),
+  big=lambda g: (lambda q, d: dict(I_qtt=g.pick([1] * (q * d), [[1] * (q * d), g.mi([2] * (q * d))]), q=q))(g.pick(7, 8, 9, 16, 17, 33), g.int(1, 2)))
 E('ind_tt_to_qtt', 'grid.py', ['C17'],
   lambda g: (lambda n, d: dict(I=g.pick(g.mi([n] * d), g.batch([n] * d)), n=n))(g.pick(2, 4, 8, 16), g.int(1, 3)),
-  dict(I='index', n='int'))
+  dict(I='index', n='int'),
+  big=lambda g: (lambda k, d: dict(I=(lambda rows: g.pick(rows[0], rows))(_big_rows(g, [2 ** k] * d, 2)), n=2 ** k))(g.pick(7, 8, 15, 16, 31, 32), g.int(1, 2)))
 
 
-def _gen_grid(g, what):
+def _gen_grid(g, what, single=False):
     d = g.int(1, 3)
     n = [g.int(2, 6) for _ in range(d)]
     a = [-1. - g.int(0, 2) / 2. for _ in range(d)]
     b = [1. + g.int(0, 2) / 2. for _ in range(d)]
-    single = g.flag()
     kind = g.pick('uni', 'cheb')
-    if g.flag():                      # scalar options
+    if g.int(0, 2) == 0:              # scalar options
         n, a, b = n[0], a[0], b[0]
         nn = [n] * d
     else:
@@ -357,25 +383,46 @@ def _gen_grid(g, what):
         return dict(I=I, a=a, b=b, n=n, kind=kind)
     lo, hi = (np.array(a) * np.ones(d)), (np.array(b) * np.ones(d))
     X = lo + (hi - lo) * g.rs.uniform(0.02, 0.98, size=(d,) if single else (g.int(2, 4), d))
+    if g.flag():                      # a coordinate outside of the box (clipped / mapped to the boundary index)
+        k = g.int(0, d - 1)
+        X[..., k] = (hi[k] + 0.75) if g.flag() else (lo[k] - 0.75)
+    return dict(X=X, a=a, b=b, n=n, kind=kind)
+
+
+def _big_grid(g, what, single=False):
+    d = g.int(1, 3)
+    nmax = g.pick(*_BIG_N)
+    kind = g.pick('uni', 'cheb')
+    a, b = -1. - g.int(0, 2) / 2., 1. + g.int(0, 2) / 2.
+    if what == 'ind':
+        n = nmax if g.flag() else [nmax] * d
+        rows = _big_rows(g, [nmax] * d, 2)
+        return dict(I=rows[0] if single else rows, a=a, b=b, n=n, kind=kind)
+    n = [nmax - 1] * d                 # the mode sizes themselves as an integer vector of every dtype that holds them
+    X = a + (b - a) * g.rs.uniform(0.02, 0.98, size=(d,) if single else (3, d))
     return dict(X=X, a=a, b=b, n=n, kind=kind)
 
 
 # a / b / n: kind `opt` (documented "float, list, np.ndarray"): lists and ndarrays of the natural dtype are interchangeable and
 # must come back untouched; tuples or NumPy scalars are outside the documented option types (DESIGN 12: tuple-valued options bypass the
 # length validation, NumPy-integer scalar options raise in poi_to_ind): no tuple / scalar forms
-E('ind_to_poi', 'grid.py', ['C18', 'C09'], lambda g: _gen_grid(g, 'ind'),
-  dict(I='index', a='opt:f', b='opt:f', n='opt', kind='other'))
-E('poi_to_ind', 'grid.py', ['C18', 'C09'], lambda g: _gen_grid(g, 'poi'),
-  dict(X='array', a='opt:f', b='opt:f', n='opt', kind='other'))
-E('poi_scale', 'grid.py', ['C18'],
-  lambda g: {k: v for k, v in _gen_grid(g, 'poi').items() if k != 'n'},
-  dict(X='array', a='opt:f', b='opt:f', kind='other'))
+# batch and single-point rows are separate so that every run exercises both (the single-point path works on the caller's own
+# option arrays where the batch path works on repeated copies)
+for _sg, _tag in ((False, ''), (True, '.single')):
+    E('ind_to_poi' + _tag, 'grid.py', ['C18', 'C09'], lambda g, _sg=_sg: _gen_grid(g, 'ind', _sg),
+      dict(I='index', a='opt:f', b='opt:f', n='opt', kind='other'), big=lambda g, _sg=_sg: _big_grid(g, 'ind', _sg))
+    E('poi_to_ind' + _tag, 'grid.py', ['C18', 'C09'], lambda g, _sg=_sg: _gen_grid(g, 'poi', _sg),
+      dict(X='array', a='opt:f', b='opt:f', n='opt:r7', kind='other'), big=lambda g, _sg=_sg: _big_grid(g, 'poi', _sg))
+    E('poi_scale' + _tag, 'grid.py', ['C18', 'C09'],
+      lambda g, _sg=_sg: {k: v for k, v in _gen_grid(g, 'poi', _sg).items() if k != 'n'},
+      dict(X='array', a='opt:f', b='opt:f', kind='other'))
 
 # ================================================================================================================
 # tensors / vectors / matrices
 # ================================================================================================================
 E('const', 'tensors.py', ['C19'],
-  lambda g: dict(n=g.n, v=g.nz()), dict(n='shape', v='float'), homog=H({'v': 1}))
+  lambda g: dict(n=g.n, v=g.nz()), dict(n='shape', v='float'), homog=H({'v': 1}),
+  big=lambda g: dict(n=[g.pick(127, 255), 3], v=g.nz()))
 
 
 def _gen_const_zero(g):
@@ -388,12 +435,15 @@ def _gen_const_zero(g):
 
 
 E('const.zeros', 'tensors.py', ['C19'], _gen_const_zero,
-  dict(n='shape', v='float', I_zero='index', i_non_zero='index'), homog=H({'v': 1}))
+  dict(n='shape', v='float', I_zero='index', i_non_zero='index'), homog=H({'v': 1}),
+  big=lambda g: (lambda n0: dict(n=[n0, 3], v=g.nz(), I_zero=[[n0 - 1, 1], [n0 // 2, 2]], i_non_zero=[n0 - 1, 0]))(g.pick(127, 255)))
 E('delta', 'tensors.py', ['C19'],
-  lambda g: dict(n=g.n, i=g.mi(), v=g.nz()), dict(n='shape', i='index', v='float'), homog=H({'v': 1}))
+  lambda g: dict(n=g.n, i=g.mi(), v=g.nz()), dict(n='shape', i='index', v='float'), homog=H({'v': 1}),
+  big=lambda g: (lambda n0: dict(n=[n0, 3], i=[n0 - g.pick(1, 2), g.int(0, 2)], v=g.nz()))(g.pick(127, 255)))
 E('poly', 'tensors.py', ['C19'],
   lambda g: dict(n=g.n, shift=g.pick(g.num(), [g.num() for _ in g.n]), power=g.int(1, 4), scale=g.nz()),
-  dict(n='shape', shift='other', power='int', scale='float'), homog=H({'scale': 1}))
+  dict(n='shape', shift='other', power='int', scale='float'), homog=H({'scale': 1}),
+  big=lambda g: dict(n=[g.pick(127, 255), 3], shift=g.num(), power=g.int(1, 3), scale=g.nz()))
 # r: documented as "int, list, np.ndarray"; a NumPy integer scalar fails the `isinstance(r, (int, float))` test and raises
 # IndexError (loud, outside the documented types, no clause of C19 implies it): R1 NumPy forms off for r
 _RK = 'int:-npint:vec'
@@ -411,11 +461,13 @@ E('rand_stab', 'tensors.py', ['C19', 'C10'],
   dict(n='shape', r=_RK, noise='float', seed='seed:gen'))
 E('vector_delta', 'vectors.py', ['C19'],
   lambda g: (lambda q: dict(q=q, i=g.int(0, 2 ** q - 1), v=g.nz()))(g.int(1, 5)),
-  dict(q='int', i='int:neg', v='float'), homog=H({'v': 1}), neg={'i': lambda a: 2 ** a['q']})
+  dict(q='int', i='int:neg:r7', v='float'), homog=H({'v': 1}), neg={'i': lambda a: 2 ** a['q']},
+  big=lambda g: (lambda q: dict(q=q, i=2 ** q - g.pick(1, 2, 2 ** (q - 1)), v=g.nz()))(g.pick(7, 8, 15, 16, 31, 32)))
 E('matrix_delta', 'matrices.py', ['C19'],
   lambda g: (lambda q: dict(q=q, i=g.int(0, 2 ** q - 1), j=g.int(0, 2 ** q - 1), v=g.nz()))(g.int(1, 5)),
-  dict(q='int', i='int:neg', j='int:neg', v='float'), homog=H({'v': 1}, ('skip', 1)),
-  post=lambda tn, Y, a: _qtt_matrix_dense(Y),
+  dict(q='int', i='int:neg:r7', j='int:neg:r7', v='float'), homog=H({'v': 1}, ('skip', 1)),
+  big=lambda g: (lambda q: dict(q=q, i=2 ** q - g.pick(1, 2), j=2 ** q - g.pick(1, 2 ** (q - 1)), v=g.nz()))(g.pick(7, 8, 15, 16)),
+  post=lambda tn, Y, a: _qtt_matrix_dense(Y) if len(Y) <= 6 else None,
   neg={'i': lambda a: 2 ** a['q'], 'j': lambda a: 2 ** a['q']})
 
 def _qtt_matrix_dense(Y):
@@ -553,7 +605,7 @@ E('optima_tt_maxvol', 'optima.py', [],
   dict(Y='tt', k='int', how='other', use='other'), homog=None)
 E('optima_qtt', 'optima.py', ['C15'],
   lambda g: dict(Y=g.tt([g.pick(2, 4, 8)] * g.int(2, 3)), k=g.pick(100, 10), e=1e-14, r=100),
-  dict(Y='tt', k='int', e='float', r='int'), homog=None)     # e is an absolute accuracy (DESIGN 12 observation)
+  dict(Y='tt', k='int', e='float', r='int:f'), homog=None)     # e is an absolute accuracy (DESIGN 12 observation)
 E('optima_func_tt_beam', 'optima_func.py', ['C15', 'C09', 'C10'],
   lambda g: dict(A=g.tt(g.shape(g.int(2, 3), 3, 4), rmax=2), k=g.int(2, 4), ret_all=g.flag()),
   dict(A='tt', k='int', k_loc='int', ret_all='flag'), homog=None)
@@ -563,13 +615,15 @@ E('optima_func_tt_beam', 'optima_func.py', ['C15', 'C09', 'C10'],
 # ================================================================================================================
 
 
-def _gen_als(g, missing=False):
+def _gen_als(g, missing=False, plain=False):
     n = g.shape(g.int(2, 3), 2, 3)
     I = np.array(g.grid_all(n), dtype=int)
     g.rs.shuffle(I)
     y = np.sin(I @ (np.arange(len(n)) + 1.)) + 0.1 * g.rs.uniform(-1, 1, size=len(I))
     a = dict(I_trn=I, y_trn=y, Y0=g.tt(n, 2), nswp=g.int(1, 2), e=1e-16, info={})
     k = g.int(0, 4)
+    if plain:
+        return a
     if missing:     # a slice has no sample: documented ValueError unless skipping is allowed
         j = g.int(0, len(n) - 1)
         keep = I[:, j] != g.int(0, n[j] - 1)
@@ -594,7 +648,8 @@ E('als', 'als.py', ['C07', 'C09', 'C10', 'C11'], _gen_als,
        e_vld='float', r='int', w='array', lamb='float', allow_swap='flag', allow_skip_cores='flag', use_stab='other',
        log='other', update_sol='other', cb='func'),
   # use_stab=True raises AttributeError on the unchanged tree (DESIGN 12 observation): the flag is left alone
-  homog=None, tol=1e-8)
+  homog=None, tol=1e-8,
+  dflt=lambda g: {k: v for k, v in _gen_als(g, plain=True).items() if k in ('I_trn', 'y_trn', 'Y0', 'nswp')})      # lamb etc. at defaults
 E('als.missing_slice', 'als.py', ['C07', 'C11'], lambda g: _gen_als(g, True),
   dict(I_trn='array', y_trn='array', Y0='tt', nswp='int', e='float', info='dict', allow_skip_cores='flag', use_stab='other',
        log='other', allow_swap='flag'),
@@ -703,7 +758,9 @@ def _gen_cross(g):
 E('cross', 'cross.py', ['C05', 'C06', 'C09', 'C10', 'C11'], _gen_cross,
   dict(f='func', Y0='tt', m='int', e='float', nswp='int', tau='float', dr_min='int', dr_max='int', tau0='float',
        k0='int', info='dict', cache='dict', I_vld='array', y_vld='array', cb='func', func='func', log='other'),
-  homog=None, tol=1e-8)
+  homog=None, tol=1e-8,
+  # e / nswp / dr_min / dr_max / tau / k0 left at their defaults, only the budget given
+  dflt=lambda g: (lambda a: {k: v for k, v in a.items() if k in ('f', 'Y0')} | {'m': g.int(150, 300)})(_gen_cross(g)))
 E('cross_act', 'cross_act.py', ['C10', 'C09'],
   lambda g: (lambda n: dict(f=lambda X: X[:, 0] * X[:, 1] + 1., X_list=[g.tt(n, 2), g.tt(n, 2)], Y0=g.tt(n, 2),
                             e=1e-6, nswp=g.int(1, 2), r=9999, dr=g.int(0, 2), dr2=g.int(0, 1), seed=g.int(0, 99)))(g.shape(3, 3, 4)),
